@@ -2228,7 +2228,9 @@ double BW_MidiSequencer::seek(double seconds, const double granularity)
      */
     m_loop.caughtStart   = false;
 
-    m_loop.temporaryBroken = (seconds >= m_loopEndTime);
+    // Without a (valid) loop end the loop ends where the song ends: no target lies behind it.
+    // (The place holder of the loop end time is negative, every target would pass the test)
+    m_loop.temporaryBroken = (m_loopEndTime >= 0.0) && (seconds >= m_loopEndTime);
 
     while((m_currentPosition.absTimePosition < seconds) &&
           (m_currentPosition.absTimePosition < m_fullSongTimeLength))
